@@ -180,10 +180,34 @@ def gen_cases(ctx):
 
 def run_impl(cases):
   n = common.NPROC
-  chunks = [c for c in (cases[i::n] for i in range(n)) if c]
+  plain = [{k: v for k, v in c.items() if k != "pmap"} for c in cases]
+  chunks = [c for c in (plain[i::n] for i in range(n)) if c]
   res = common.run_workers_parallel("harness.impl.c02_worker", [dict(cases=c) for c in chunks],
-                                    x64=True, devices=2, timeout=3000)
-  return [r for o in res for r in o["results"]]
+                                    x64=True, timeout=3000)
+  results = [r for o in res for r in o["results"]]
+  # the pmap comparisons run in their own short-lived processes, a few cases each (a worker that had
+  # compiled dozens of two-device programs next to hundreds of plain ones was killed by a segmentation
+  # fault in the thorough tier)
+  # only trees in which at least one parameter is preconditioned: with no statistics at all the pmapped
+  # update of today's tree kills the process inside XLA's compiler (known finding C02-P1, probed
+  # separately by known_finding_probe)
+  with_stats = {r["case"]["seed"] for r in results
+                if "steps" in r and any(lf["after"]["stats"] for lf in r["steps"][0]["leaves"])}
+  pm = [c for c in cases if c.get("pmap") and c["seed"] in with_stats]
+  if pm:
+    pchunks = [pm[i:i + 3] for i in range(0, len(pm), 3)]
+    pres = common.run_workers_parallel("harness.impl.c02_worker", [dict(cases=c) for c in pchunks],
+                                       x64=True, devices=2, timeout=3000)
+    by_seed = {r["case"]["seed"]: r for o in pres for r in o["results"]}
+    for r in results:
+      pr = by_seed.get(r["case"]["seed"])
+      if pr is not None:
+        r["case"] = pr["case"]
+        if "pmap" in pr:
+          r["pmap"] = pr["pmap"]
+        elif "exc" in pr and "exc" not in r:
+          r["exc"] = "under pmap: " + pr["exc"]
+  return results
 
 
 def evaluate(ctx, results, tag):
@@ -278,6 +302,35 @@ def report(ctx, results, verdicts):
             theorem_or_check="C01.Check.root_cert on the optimizer's stored state"))
 
 
+P1_WITNESS = dict(seed=1, shapes=[[2, 5], [4, 4]], T=1, block=3, beta1=0.9, beta2=0.999, diag_eps=1e-10,
+                  mat_eps=1e-6, wd=0.0, start=0, pcs=1, scs=1, best_effort=False, graft=1, nesterov=False,
+                  expo=0, thr=0.1, moving_avg=False, skip_dim_gt=3, skip_rank_lt=1, merge=2, ptype=1,
+                  dec_lr=False, dec_wd=False, eigh=False, lr=0.25, lr_schedule=False, hist="normal",
+                  gscale=1.0, pmap=2)
+
+
+def known_finding_probe(ctx):
+  """C02-P1: jax.pmap on 2 devices, every parameter excluded from preconditioning (no statistics) and
+  training metrics on (default): the process dies with a segmentation fault while XLA compiles the
+  pmapped update.  The witness runs in its own process; the KNOWN-FINDING line is printed only while the
+  entry is open in known_findings.json and the witness still crashes."""
+  kf = [k for k in common.load_known_findings("C02") if k.get("id") == "C02-P1" and k.get("status", "open") == "open"]
+  if not kf:
+    return
+  try:
+    out = common.run_worker("harness.impl.c02_worker", dict(cases=[P1_WITNESS]), x64=True, devices=2, timeout=900)
+    r = out["results"][0]
+    if "exc" in r:
+      ctx.violation("impl-violates", dict(input=P1_WITNESS, expected="the witness of C02-P1 either runs or crashes "
+                                          "the process as recorded", actual=r["exc"],
+                                          theorem_or_check="known finding C02-P1 witness"))
+  except RuntimeError as e:
+    if "rc=-11" in str(e) or "rc=139" in str(e):
+      ctx.known("C02-P1 %s" % kf[0]["title"])
+    else:
+      raise
+
+
 def translator_obligation(ctx):
   """Regenerate the Gallina translation of _transform_grad from /repo and re-prove it equal to the
   reference C02.Ref.transform_grad the theorems and the per-step check use."""
@@ -323,6 +376,7 @@ def run(ctx):
   translator_obligation(ctx)
   cases = gen_cases(ctx)
   ctx.log("%d configurations" % len(cases))
+  known_finding_probe(ctx)
   results = run_impl(cases)
   verdicts = evaluate(ctx, results, "c02")
   report(ctx, results, verdicts)
